@@ -69,6 +69,19 @@ Theorem C14_prep_kw_unknown : forall pc sg s,
   (forall kw, kw_ok det_names kw = false -> step pc sg s (Detrend kw) = PErr TypeErr).
 Proof. exact kw_unknown_typeerr. Qed.
 
+(* a call that raises (undocumented keyword: TypeError; a call SciPy refuses: marked [ScipyRaises]) leaves EVERY component
+   of the state as it was, and the session continues: the state reached by a history containing failing calls is the state
+   reached by the history of its successful calls alone - to which all the theorems of this file apply (either model) *)
+Theorem C14_prep_failed_call_noop : forall pc sg,
+  (forall s o e, step pc sg s o = PErr e -> step_keep pc sg s o = (Some e, s)) /\
+  (forall s, step_keep pc sg s ScipyRaises = (Some ValueErr, s)) /\
+  (forall ops s, run pc sg s (succ_ops pc sg s ops) = POk (run_keep pc sg s ops)
+                 /\ Forall (fun o => o <> ScipyRaises) (succ_ops pc sg s ops)).
+Proof.
+  intros pc sg. split; [exact (failed_call_noop pc sg)|]. split; [exact (scipy_raises_noop pc sg)|].
+  intros ops s. split; [exact (run_keep_succ pc sg ops s)|exact (succ_ops_ok pc sg ops s)].
+Qed.
+
 (* the stored initial copy (data, fs, reference layout) is the same after every history *)
 Theorem C14_prep_init_immutable : forall sg fs0 refs ds s0, init_state sg fs0 refs ds = POk s0 ->
   forall ops s, run false sg s0 ops = POk s -> init s = ds /\ init_fs s = fs0 /\ init_ref s = refs /\ ref s = refs.
@@ -98,6 +111,7 @@ Print Assumptions C14_prep_metadata.
 Print Assumptions C14_prep_rollback.
 Print Assumptions C14_prep_kw_total.
 Print Assumptions C14_prep_kw_unknown.
+Print Assumptions C14_prep_failed_call_noop.
 Print Assumptions C14_prep_init_immutable.
 Print Assumptions C14_present_same_but_T.
 Print Assumptions C14_single_T_refuted.
@@ -127,3 +141,14 @@ Proof.
   eexists. eexists. split; [vm_compute; reflexivity|]. split; [vm_compute; reflexivity|].
   vm_compute. repeat split; reflexivity.
 Qed.
+
+(* non-vacuity of the failing-call theorem: 64 samples decimated by 3 leave 22, on which SciPy refuses the IIR decimation by 2
+   (padding needs more than 27): the refused call and an undocumented keyword change nothing, the later detrend applies *)
+Example C14_example_failed_calls :
+  let ops := [Decimate 3 []; ScipyRaises; Detrend [("typ", VStr "linear")]; Detrend []] in
+  exists s0, init_state true (Q2Qc (100#1)) [] (inits [(64,3)]%nat) = POk s0
+    /\ succ_ops false true s0 ops = [Decimate 3 []; Detrend []]
+    /\ cur (run_keep false true s0 ops) = [Det [] (Dec 3 [] (Init 0 64 3))]
+    /\ Ndats (run_keep false true s0 ops) = [22]%nat
+    /\ map (fun x : Qc => this x) [fs (run_keep false true s0 ops); dt (run_keep false true s0 ops)] = [100#3; 3#100].
+Proof. cbv zeta. eexists. split; [vm_compute; reflexivity|]. vm_compute. repeat split; reflexivity. Qed.
